@@ -106,6 +106,48 @@ def guard_facts(kb):
                     encl = sm.group(1)
             if encl not in allowed_ctx:
                 bad.append("%s:%d %s" % (rel, txt.count("\n", 0, pos) + 1, mm.group(1)))
+    # --- the guards are real objects that live as long as the construct is evaluated
+    evtxt = allsrc["include/chaiscript/language/chaiscript_eval.hpp"]
+    evm = chai2c._mask(evtxt)
+    temps = []
+    for rel, txt in allsrc.items():
+        for mm in re.finditer(r"\b(Scope_Push_Pop|Function_Push_Pop|Stack_Push_Pop)\s*[({]", txt):
+            pre = txt[max(0, mm.start() - 12):mm.start()]
+            if re.search(r"(struct|~|explicit|&|\*)\s*$", pre) or re.search(r"\b(Scope_Push_Pop|Function_Push_Pop|Stack_Push_Pop)\s*\(\s*(const\s+)?(Scope_Push_Pop|Function_Push_Pop|Stack_Push_Pop|chaiscript::detail::Dispatch_State)\b", txt[mm.start():mm.start() + 120]):
+                continue  # declaration / constructor / deleted copy operations of the guard itself
+            temps.append("%s:%d" % (rel, txt.count("\n", 0, mm.start()) + 1))
+    kb.static_facts.append(("no_guard_is_created_as_an_unnamed_temporary (it would be destroyed before the construct is evaluated)", not temps,
+                            "unnamed guard temporaries: %s" % (temps or "none")))
+    expect = {"Block": "Scope_Push_Pop", "While": "Scope_Push_Pop", "For": "Scope_Push_Pop", "Ranged_For": "Scope_Push_Pop", "Switch": "Scope_Push_Pop",
+              "Case": "Scope_Push_Pop", "Default": "Scope_Push_Pop", "Class": "Scope_Push_Pop", "Try": "Scope_Push_Pop",
+              "Fun_Call": "Function_Push_Pop", "Equation": "Function_Push_Pop", "Binary_Operator": "Function_Push_Pop",
+              "Fold_Right_Binary_Operator": "Function_Push_Pop", "Array_Call": "Function_Push_Pop", "Dot_Access": "Function_Push_Pop", "Prefix": "Function_Push_Pop"}
+    missing, late, unknown = [], [], []
+    for node, guard in expect.items():
+        mm = re.search(r"\bstruct %s_AST_Node\b[^;{]*\{" % node, evtxt)
+        if not mm:
+            unknown.append(node)
+            continue
+        cb = chai2c.match_brace(evm, mm.end() - 1)
+        body = evtxt[mm.end():cb]
+        g = re.search(r"\b%s\s+\w+\s*\(" % guard, body)
+        if not g:
+            missing.append("%s_AST_Node has no named %s" % (node, guard))
+            continue
+    kb.static_facts.append(("every_scope_or_call_opening_node_type_still_holds_its_named_guard",
+                            False if (missing or late) else (None if unknown else True),
+                            "; ".join(missing + late + ["node not found: %s" % u for u in unknown]) or "%d node types" % len(expect)))
+    efm = re.search(r"\bBoxed_Value eval_function\(", evtxt)
+    ok = False
+    if efm:
+        ob = evtxt.index("{", evtxt.index(")", efm.end()))
+        cb = chai2c.match_brace(evm, ob)
+        body = evtxt[ob:cb]
+        g = re.search(r"\bStack_Push_Pop\s+\w+\s*\(", body)
+        a = re.search(r"\.add_object\(", body)
+        e = re.search(r"\.eval\(", body)
+        ok = bool(g and a and e and g.start() < a.start() and g.start() < e.start())
+    kb.static_facts.append(("eval_function_opens_the_callee_stack_before_binding_parameters_and_evaluating_the_body", ok if efm else None, "chaiscript_eval.hpp eval_function"))
     kb.static_facts.append(("push_pop_primitives_called_only_from_the_four_guards", not bad,
                             "%d call sites scanned in chaiscript_common/dispatchkit/chaiscript_eval/chaiscript_engine; outside a guard: %s"
                             % (total, bad or "none")))
